@@ -4,13 +4,18 @@
                  (the model, C06_exec_oracle_independent, says: all equal);
      DcFirstErr  a governance request given as the error code of each entry in sorted key order (None = acceptable)
                  and the error code observed in each execution (the model: the loops visit the keys in sorted
-                 order, so every execution reports the first failing entry of that order). *)
+                 order, so every execution reports the first failing entry of that order);
+     DcFanIn     a request whose items fail in a fan-in (GetItemsByIDs) with an error other than not-present: the
+                 digest of the output each failing item gives on its own, and the digests of the outputs observed
+                 in the repeated executions of the request on one state (the model: the error of the item whose
+                 goroutine finishes first, for some finishing order - the scheduler oracle). *)
 From ZC Require Import Base.Corr Model.Determinism.
 Open Scope Z_scope.
 
 Inductive det_case :=
   | DcRuns (digests : list Z)
-  | DcFirstErr (errs : list (option Z)) (observed : list (option Z)).
+  | DcFirstErr (errs : list (option Z)) (observed : list (option Z))
+  | DcFanIn (items : list Z) (observed : list Z).
 
 Definition opt_z_eqb (a b : option Z) : bool :=
   match a, b with Some x, Some y => Z.eqb x y | None, None => true | _, _ => false end.
@@ -23,4 +28,7 @@ Definition det_check (c : det_case) : bool :=
       (* errs is given in sorted key order, the order the repaired loops use: every execution reports the first one *)
       let expected := nd_first_error (option Z) (fun e => e) errs in
       forallb (opt_z_eqb expected) obs
+  | DcFanIn items obs =>
+      (* every observed output is what the model returns when some failing item finishes first *)
+      forallb (fun o => existsb (fun i => opt_z_eqb (nd_fanin_first Z (fun x => Some x) (i :: items)) (Some o)) items) obs
   end.
